@@ -512,7 +512,7 @@ pub fn run(tier: Tier, shard: Shard, rep: &mut Report) {
          directory named in 8 ways (absolute, relative, '.', the empty path, './cache/', 'cache//', 'cache/.', '../cache'); fresh-key writes for capacities 0..=12 whose values \
          are symbolic links (to a file that stays, to a file deleted after the write, to a directory); capacities 2^63, 3*2^62, usize::MAX-2..=usize::MAX: small draws fire at the first write, 2^64-1 with 1000 writes never \
          panics. Every case is distinct. (4) One writer at capacity 2, 3, 5 over an over-full directory racing with an outsider that \
-         deletes the oldest, a middle or the newest entry (all schedules with <= 2 preemptions): the bound holds after the write.",
+         deletes the oldest, a middle or the newest entry, or with a reader that looks every entry up (all schedules with <= 2 preemptions): the bound holds after the write.",
         kmax, smallk, seqlen, kmax
     );
     rep.assumptions = vec![
@@ -638,6 +638,24 @@ fn concurrent_programs() -> Vec<(crate::sched::Program, crate::props::e1::Mode, 
     let mut out = Vec::new();
     for (k, npre) in [(2usize, 5usize), (3, 6), (5, 8)] {
         let pre: Vec<crate::sched::Planted> = (0..npre).map(|i| planted(&format!("x{}", i), Val::new(10 + i as u8, Size::One), i % 3 == 1, 20 - i as i64)).collect();
+        // a reader (it never writes) looking entries up while the writer maintains: whatever it touches after the
+        // listing, the pass still brings the directory down to capacity
+        for set in [true, false] {
+            let v = e1::wval(0, 0, Size::One);
+            let w = if set { Op::Set(m.clone(), v) } else { Op::Put(m.clone(), v) };
+            let reads: Vec<POp> = (0..npre).map(|i| api(Op::Get(crate::ops::key_for_shards(&format!("x{}", i), 0, 1, 2)))).collect();
+            out.push((
+                crate::sched::Program {
+                    name: format!("growth-k{}n{}-{}|reader", k, npre, if set { "set" } else { "put" }),
+                    cfg: e1::plain_cfg(k),
+                    pre: pre.clone(),
+                    threads: e1::own_handles(vec![vec![api(w)], reads], true),
+                    create_write_dir: true,
+                },
+                crate::props::e1::side_bound(),
+                k,
+            ));
+        }
         for (name, victim) in [("oldest", 0usize), ("middle", npre / 2), ("newest", npre - 1)] {
             for set in [true, false] {
                 let v = e1::wval(0, 0, Size::One);
